@@ -1,9 +1,957 @@
-//! S-CLI (C20): placeholder, filled in below.
+//! S-CLI (C20): the real `muxide` binary (rebuilt from /repo) as a child
+//! process in a generated directory; the in-process library run is the
+//! reference. Disk faults come from real kernel objects.
+
+use crate::case::*;
+use crate::checks::RunStats;
+use crate::exec;
+use crate::frames::{self, FrameShape, Mangle};
+use crate::oracle::{normalise, v, Violation};
+use crate::rng::{Hasher64, Rng};
 use serde::{Deserialize, Serialize};
+use std::io::Read;
+use std::os::unix::ffi::OsStringExt;
+use std::path::{Path, PathBuf};
+use std::process::{Command, Stdio};
+
+pub const BIN: &str = "/verif/sim/target/repo-bin/release/muxide";
+
+#[derive(Clone, Debug, Serialize, Deserialize, PartialEq)]
+pub enum Input {
+    /// valid hex text of these bytes; style: 0 plain lower, 1 upper, 2 whitespace/newlines, 3 trailing newline
+    Hex { data: crate::case::Hex, style: u8 },
+    OddLength,
+    NonHex,
+    Empty,
+    WhitespaceOnly,
+    NonUtf8,
+    Directory,
+    Missing,
+    DanglingSymlink,
+    SymlinkLoop,
+}
+
+impl Input {
+    fn readable_hex(&self) -> Option<&[u8]> {
+        match self {
+            Input::Hex { data, .. } => Some(&data.0),
+            _ => None,
+        }
+    }
+    fn name(&self) -> &'static str {
+        match self {
+            Input::Hex { .. } => "hex",
+            Input::OddLength => "odd-length",
+            Input::NonHex => "non-hex",
+            Input::Empty => "empty",
+            Input::WhitespaceOnly => "whitespace-only",
+            Input::NonUtf8 => "non-utf8",
+            Input::Directory => "directory",
+            Input::Missing => "missing",
+            Input::DanglingSymlink => "dangling-symlink",
+            Input::SymlinkLoop => "symlink-loop",
+        }
+    }
+}
+
+#[derive(Clone, Copy, Debug, Serialize, Deserialize, PartialEq)]
+pub enum Output {
+    Fresh,
+    Existing,
+    Directory,
+    MissingParent,
+    DevFull,
+}
+
+#[derive(Clone, Debug, Serialize, Deserialize, PartialEq)]
+pub enum InfoFile {
+    /// a file produced by the library in-process (progressive) from this case
+    Library(Box<ProgCase>),
+    /// init segment + media segments of a fragmented history
+    Fragmented(Box<FragCase>),
+    Truncated(Box<ProgCase>, u32),
+    Corrupted(Box<ProgCase>, u32, u8),
+    Random(crate::case::Hex),
+    Missing,
+    Directory,
+}
 
 #[derive(Clone, Debug, Serialize, Deserialize)]
-pub struct CliCase {}
+pub enum CliCmd {
+    Mux {
+        video: Option<Input>,
+        audio: Option<Input>,
+        output: Output,
+        /// as typed on the command line (name or alias, any case); None = omitted
+        video_codec: Option<String>,
+        width: Option<String>,
+        height: Option<String>,
+        fps: Option<String>,
+        audio_codec: Option<String>,
+        sample_rate: Option<String>,
+        channels: Option<String>,
+        title: Option<String>,
+        language: Option<String>,
+        fragmented: bool,
+        dry_run: bool,
+    },
+    Validate { video: Option<Input>, audio: Option<Input>, report: bool },
+    Info { file: InfoFile },
+}
+
+#[derive(Clone, Debug, Serialize, Deserialize)]
+pub struct CliCase {
+    pub cmd: CliCmd,
+    pub json: bool,
+    pub verbose: bool,
+    pub no_progress: bool,
+    /// codec the generator had in mind for the frames
+    pub vcodec: VCodec,
+    pub acodec: Option<ACodec>,
+}
+
 impl CliCase {
-    pub fn shrink(&self) -> Vec<CliCase> { Vec::new() }
-    pub fn sample_view(&self, scenario: &str) -> serde_json::Value { serde_json::json!({"scenario": scenario}) }
+    pub fn shrink(&self) -> Vec<CliCase> {
+        let mut out = Vec::new();
+        let mut c = self.clone();
+        if c.verbose || c.no_progress {
+            c.verbose = false;
+            c.no_progress = false;
+            out.push(c);
+        }
+        if let CliCmd::Mux { title, language, .. } = &self.cmd {
+            if title.is_some() || language.is_some() {
+                let mut c = self.clone();
+                if let CliCmd::Mux { title, language, .. } = &mut c.cmd {
+                    *title = None;
+                    *language = None;
+                }
+                out.push(c);
+            }
+        }
+        out
+    }
+    pub fn sample_view(&self, scenario: &str) -> serde_json::Value {
+        serde_json::json!({"scenario": scenario, "argv": self.argv_preview(), "json": self.json, "verbose": self.verbose})
+    }
+    fn argv_preview(&self) -> Vec<String> {
+        let d = PathBuf::from("<dir>");
+        self.argv(&d).into_iter().map(|s| String::from_utf8_lossy(&s.into_vec()).into_owned()).collect()
+    }
+
+    pub fn argv(&self, dir: &Path) -> Vec<std::ffi::OsString> {
+        let mut a: Vec<std::ffi::OsString> = Vec::new();
+        let s = |x: &str| std::ffi::OsString::from(x);
+        if self.verbose {
+            a.push(s("--verbose"));
+        }
+        if self.json {
+            a.push(s("--json"));
+        }
+        if self.no_progress {
+            a.push(s("--no-progress"));
+        }
+        match &self.cmd {
+            CliCmd::Mux { video, audio, output, video_codec, width, height, fps, audio_codec, sample_rate, channels, title, language, fragmented, dry_run } => {
+                a.push(s("mux"));
+                if video.is_some() {
+                    a.push(s("--video"));
+                    a.push(dir.join("video.hex").into());
+                }
+                if audio.is_some() {
+                    a.push(s("--audio"));
+                    a.push(dir.join("audio.hex").into());
+                }
+                a.push(s("--output"));
+                a.push(match output {
+                    Output::Fresh => dir.join("out.mp4").into(),
+                    Output::Existing => dir.join("existing.mp4").into(),
+                    Output::Directory => dir.join("outdir").into(),
+                    Output::MissingParent => dir.join("no/such/dir/out.mp4").into(),
+                    Output::DevFull => s("/dev/full"),
+                });
+                for (flag, val) in [
+                    ("--video-codec", video_codec),
+                    ("--width", width),
+                    ("--height", height),
+                    ("--fps", fps),
+                    ("--audio-codec", audio_codec),
+                    ("--sample-rate", sample_rate),
+                    ("--channels", channels),
+                    ("--title", title),
+                    ("--language", language),
+                ] {
+                    if let Some(vv) = val {
+                        a.push(s(flag));
+                        a.push(s(vv));
+                    }
+                }
+                if *fragmented {
+                    a.push(s("--fragmented"));
+                }
+                if *dry_run {
+                    a.push(s("--dry-run"));
+                }
+            }
+            CliCmd::Validate { video, audio, report } => {
+                a.push(s("validate"));
+                if video.is_some() {
+                    a.push(s("--video"));
+                    a.push(dir.join("video.hex").into());
+                }
+                if audio.is_some() {
+                    a.push(s("--audio"));
+                    a.push(dir.join("audio.hex").into());
+                }
+                if *report {
+                    a.push(s("--output"));
+                    a.push(dir.join("report.json").into());
+                }
+            }
+            CliCmd::Info { .. } => {
+                a.push(s("info"));
+                a.push(dir.join("input.mp4").into());
+            }
+        }
+        a
+    }
+}
+
+fn hex_text(data: &[u8], style: u8) -> Vec<u8> {
+    let h = crate::case::to_hex(data);
+    match style {
+        1 => h.to_uppercase().into_bytes(),
+        2 => {
+            let mut o = String::from("  \n");
+            for (i, ch) in h.chars().enumerate() {
+                o.push(ch);
+                if i % 2 == 1 && (i / 2) % 16 == 15 {
+                    o.push('\n');
+                } else if i % 2 == 1 {
+                    o.push(if i % 6 == 5 { '\t' } else { ' ' });
+                }
+            }
+            o.push_str("\r\n");
+            o.into_bytes()
+        }
+        3 => format!("{}\n", h).into_bytes(),
+        _ => h.into_bytes(),
+    }
+}
+
+fn materialise(dir: &Path, name: &str, inp: &Input) -> std::io::Result<()> {
+    let p = dir.join(name);
+    match inp {
+        Input::Hex { data, style } => std::fs::write(&p, hex_text(&data.0, *style)),
+        Input::OddLength => std::fs::write(&p, b"00000001674"),
+        Input::NonHex => std::fs::write(&p, b"0000000167zz42"),
+        Input::Empty => std::fs::write(&p, b""),
+        Input::WhitespaceOnly => std::fs::write(&p, b" \n\t \r\n"),
+        Input::NonUtf8 => std::fs::write(&p, [0x30, 0x30, 0xff, 0xfe, 0x80, 0x30, 0x31]),
+        Input::Directory => std::fs::create_dir(&p),
+        Input::Missing => Ok(()),
+        Input::DanglingSymlink => std::os::unix::fs::symlink(dir.join("nowhere"), &p),
+        Input::SymlinkLoop => std::os::unix::fs::symlink(&p, &p),
+    }
+}
+
+pub struct ChildOut {
+    pub code: Option<i32>,
+    pub stdout: Vec<u8>,
+    pub stderr: Vec<u8>,
+    pub timed_out: bool,
+}
+
+pub fn run_child(dir: &Path, argv: &[std::ffi::OsString]) -> std::io::Result<ChildOut> {
+    let mut child = Command::new(BIN)
+        .args(argv)
+        .current_dir(dir)
+        .env_clear()
+        .env("LANG", "C")
+        .env("RUST_BACKTRACE", "0")
+        .env("NO_COLOR", "1")
+        .stdin(Stdio::null())
+        .stdout(Stdio::piped())
+        .stderr(Stdio::piped())
+        .spawn()?;
+    let mut so = child.stdout.take().unwrap();
+    let mut se = child.stderr.take().unwrap();
+    let t1 = std::thread::spawn(move || {
+        let mut b = Vec::new();
+        let _ = so.read_to_end(&mut b);
+        b
+    });
+    let t2 = std::thread::spawn(move || {
+        let mut b = Vec::new();
+        let _ = se.read_to_end(&mut b);
+        b
+    });
+    let start = std::time::Instant::now();
+    let mut timed_out = false;
+    let status = loop {
+        match child.try_wait()? {
+            Some(s) => break Some(s),
+            None => {
+                if start.elapsed().as_secs() >= 20 {
+                    let _ = child.kill();
+                    let _ = child.wait();
+                    timed_out = true;
+                    break None;
+                }
+                std::thread::sleep(std::time::Duration::from_millis(2));
+            }
+        }
+    };
+    let stdout = t1.join().unwrap_or_default();
+    let stderr = t2.join().unwrap_or_default();
+    Ok(ChildOut { code: status.and_then(|s| s.code()), stdout, stderr, timed_out })
+}
+
+// ---------------------------------------------------------------- generation
+
+fn good_dim(rng: &mut Rng) -> (u32, u32) {
+    *rng.pick(&[(320u32, 240u32), (640, 480), (1280, 720), (1920, 1080), (4096, 2160), (3840, 2160), (321, 241)])
+}
+
+pub fn gen(rng: &mut Rng, scenario: &str) -> CliCase {
+    let vcodec = *rng.pick(&VCODECS);
+    let stamp = rng.next_u64();
+    let vframe = frames::build_video(rng, vcodec, FrameShape::KeyWithConfig, stamp, 24, true).data;
+    let acodec = if rng.chance(1, 2) { Some(*rng.pick(&ACODECS_REAL)) } else { None };
+    let aframe = acodec.map(|a| frames::build_audio(rng, a, stamp ^ 1, 20, true).data);
+    let style = |rng: &mut Rng| rng.below(4) as u8;
+    let bad_input = |rng: &mut Rng| -> Input {
+        rng.pick(&[Input::OddLength, Input::NonHex, Input::Empty, Input::WhitespaceOnly, Input::NonUtf8, Input::Directory, Input::Missing, Input::DanglingSymlink, Input::SymlinkLoop]).clone()
+    };
+    let vnames: &[&str] = match vcodec {
+        VCodec::H264 => &["h264", "H264", "h.264", "avc", "AVC"],
+        VCodec::H265 => &["h265", "hevc", "HEVC", "h.265", "H.265"],
+        VCodec::Av1 => &["av1", "AV1"],
+        VCodec::Vp9 => &["vp9", "VP9"],
+    };
+    let json = rng.chance(1, 2);
+    let verbose = rng.chance(1, 3);
+    let no_progress = rng.chance(1, 2);
+    let cmd = match scenario {
+        "validate" => {
+            let mut pick = |rng: &mut Rng, frame: &[u8]| -> Option<Input> {
+                match rng.below(10) {
+                    0 => None,
+                    1..=5 => Some(Input::Hex { data: Hex(frame.to_vec()), style: style(rng) }),
+                    6 => Some(Input::Hex { data: Hex(rng.bytes(9)), style: style(rng) }),
+                    _ => Some(bad_input(rng)),
+                }
+            };
+            let video = pick(rng, &vframe);
+            let audio = pick(rng, aframe.as_deref().unwrap_or(&[0xfc, 1, 2]));
+            CliCmd::Validate { video, audio, report: rng.chance(1, 4) }
+        }
+        "info" => {
+            let k = crate::gen::Knobs::functional();
+            let file = match rng.below(10) {
+                0..=3 => InfoFile::Library(Box::new(crate::gen::gen_prog(rng, &k).0)),
+                4 => InfoFile::Fragmented(Box::new(crate::gen::gen_frag(rng, &crate::gen::FragKnobs { reject_pct: 0, boundary: false, big: false, long_pct: 0 }))),
+                5 => InfoFile::Truncated(Box::new(crate::gen::gen_prog(rng, &k).0), rng.below(400) as u32),
+                6 => InfoFile::Corrupted(Box::new(crate::gen::gen_prog(rng, &k).0), rng.below(64) as u32, (rng.next_u64() & 0xff) as u8),
+                7 => {
+                    let n = *rng.pick(&[0usize, 1, 7, 8, 9, 16, 100]);
+                    let mut d = rng.bytes(n);
+                    if n >= 8 && rng.bool() {
+                        // adversarial sizes: 0, 1, tiny, huge
+                        let sz: u32 = *rng.pick(&[0u32, 1, 2, 7, 8, u32::MAX, 0x8000_0000]);
+                        d[..4].copy_from_slice(&sz.to_be_bytes());
+                    }
+                    InfoFile::Random(Hex(d))
+                }
+                8 => InfoFile::Missing,
+                _ => InfoFile::Directory,
+            };
+            CliCmd::Info { file }
+        }
+        _ => {
+            // mux
+            let valid = scenario == "mux-valid";
+            let (w, h) = good_dim(rng);
+            let mut width = Some(w.to_string());
+            let mut height = Some(h.to_string());
+            let mut fps = Some(rng.pick(&["30", "29.97", "24", "60", "120", "0.5", "1"]).to_string());
+            let mut video = Some(Input::Hex { data: Hex(vframe.clone()), style: style(rng) });
+            let mut video_codec = if vcodec == VCodec::H264 && rng.bool() { None } else { Some(rng.pick(vnames).to_string()) };
+            let mut audio = aframe.as_ref().map(|f| Input::Hex { data: Hex(f.clone()), style: style(rng) });
+            let mut audio_codec = acodec.map(|a| if a == ACodec::AacLc && rng.bool() { None } else { Some(if rng.bool() { a.cli_name().to_string() } else { a.cli_name().to_uppercase() }) }).unwrap_or(None);
+            let mut sample_rate = acodec.map(|_| rng.pick(&["48000", "44100", "8000", "192000", "1"]).to_string());
+            let mut channels = acodec.map(|_| rng.pick(&["1", "2", "6", "8"]).to_string());
+            let title = if rng.chance(1, 2) { Some(rng.pick(&["My Recording", "", "日本語 🎬", "a b  c", "-dash"]).to_string()).filter(|t| !t.starts_with('-')) } else { None };
+            let language = if rng.chance(1, 3) { Some(rng.pick(&["eng", "spa", "und", "jpn"]).to_string()) } else { None };
+            let mut output = if rng.chance(1, 4) { Output::Existing } else { Output::Fresh };
+            let mut fragmented = false;
+            let mut dry_run = false;
+            if !valid {
+                // break exactly one thing (sometimes two)
+                let breaks = if rng.chance(1, 5) { 2 } else { 1 };
+                for _ in 0..breaks {
+                    match rng.below(16) {
+                        0 => video = Some(bad_input(rng)),
+                        1 => {
+                            if audio.is_some() {
+                                audio = Some(bad_input(rng))
+                            } else {
+                                video = Some(bad_input(rng))
+                            }
+                        }
+                        2 => width = None,
+                        3 => height = None,
+                        4 => fps = None,
+                        5 => width = Some(rng.pick(&["0", "319", "4097", "100000", "4294967295"]).to_string()),
+                        6 => height = Some(rng.pick(&["0", "239", "2161", "65536"]).to_string()),
+                        7 => fps = Some(rng.pick(&["0", "-1", "120.5", "1000", "NaN", "inf"]).to_string()),
+                        8 => {
+                            if audio.is_some() {
+                                sample_rate = Some(rng.pick(&["0", "192001", "4294967295"]).to_string())
+                            } else {
+                                output = Output::Directory
+                            }
+                        }
+                        9 => {
+                            if audio.is_some() {
+                                channels = Some(rng.pick(&["0", "9", "255"]).to_string())
+                            } else {
+                                output = Output::MissingParent
+                            }
+                        }
+                        10 => output = *rng.pick(&[Output::Directory, Output::MissingParent, Output::DevFull]),
+                        11 => {
+                            // frame that the library must refuse as a first frame
+                            let shape = *rng.pick(&[FrameShape::Delta, FrameShape::KeyNoConfig]);
+                            let f = frames::build_video(rng, vcodec, shape, stamp, 24, false).data;
+                            video = Some(Input::Hex { data: Hex(f), style: style(rng) });
+                        }
+                        12 => {
+                            if let Some(f) = &aframe {
+                                let d = frames::mangle(rng, f, Mangle::Truncate);
+                                audio = Some(Input::Hex { data: Hex(d), style: style(rng) });
+                            } else {
+                                video = Some(Input::Missing);
+                            }
+                        }
+                        13 => {
+                            if audio.is_some() {
+                                if rng.bool() {
+                                    sample_rate = None
+                                } else {
+                                    channels = None
+                                }
+                            } else {
+                                video_codec = Some(rng.pick(&["h266", "mpeg2", "", "x264"]).to_string())
+                            }
+                        }
+                        14 => {
+                            // Either-class variations
+                            match rng.below(3) {
+                                0 => fragmented = true,
+                                1 => dry_run = true,
+                                _ => {
+                                    video = None;
+                                }
+                            }
+                        }
+                        _ => {
+                            if audio.is_some() {
+                                audio_codec = Some(rng.pick(&["mp3", "none", "aac-xyz"]).to_string())
+                            } else {
+                                video = Some(Input::Missing)
+                            }
+                        }
+                    }
+                }
+            }
+            CliCmd::Mux { video, audio, output, video_codec, width, height, fps, audio_codec, sample_rate, channels, title, language, fragmented, dry_run }
+        }
+    };
+    CliCase { cmd, json, verbose, no_progress, vcodec, acodec }
+}
+
+// ---------------------------------------------------------------- expectations
+
+#[derive(Debug, PartialEq)]
+enum Expect {
+    MustSucceed,
+    MustFail(&'static str),
+    Either(&'static str),
+}
+
+fn parse_vcodec(s: &str) -> Option<VCodec> {
+    match s.to_lowercase().as_str() {
+        "h264" | "h.264" | "avc" => Some(VCodec::H264),
+        "h265" | "h.265" | "hevc" => Some(VCodec::H265),
+        "av1" => Some(VCodec::Av1),
+        "vp9" => Some(VCodec::Vp9),
+        _ => None,
+    }
+}
+fn parse_acodec(s: &str) -> Option<ACodec> {
+    match s.to_lowercase().as_str() {
+        "aac" | "aac-lc" => Some(ACodec::AacLc),
+        "aac-main" => Some(ACodec::AacMain),
+        "aac-ssr" => Some(ACodec::AacSsr),
+        "aac-ltp" => Some(ACodec::AacLtp),
+        "aac-he" => Some(ACodec::AacHe),
+        "aac-hev2" => Some(ACodec::AacHev2),
+        "opus" => Some(ACodec::Opus),
+        "none" => Some(ACodec::NoneCodec),
+        _ => None,
+    }
+}
+
+struct MuxPlan {
+    expect: Expect,
+    /// the equivalent library history, when the inputs are readable
+    lib: Option<ProgCase>,
+    n_video: u64,
+    n_audio: u64,
+}
+
+fn plan_mux(c: &CliCase) -> MuxPlan {
+    let none = |e: Expect| MuxPlan { expect: e, lib: None, n_video: 0, n_audio: 0 };
+    let (video, audio, output, video_codec, width, height, fps, audio_codec, sample_rate, channels, title, language, fragmented, dry_run) = match &c.cmd {
+        CliCmd::Mux { video, audio, output, video_codec, width, height, fps, audio_codec, sample_rate, channels, title, language, fragmented, dry_run } => {
+            (video, audio, output, video_codec, width, height, fps, audio_codec, sample_rate, channels, title, language, *fragmented, *dry_run)
+        }
+        _ => return none(Expect::Either("not mux")),
+    };
+    if dry_run {
+        return none(Expect::Either("--dry-run"));
+    }
+    if fragmented {
+        return none(Expect::Either("--fragmented"));
+    }
+    if video.is_none() && audio.is_none() {
+        return none(Expect::MustFail("no inputs"));
+    }
+    if video.is_none() {
+        return none(Expect::Either("audio only"));
+    }
+    // argument syntax (clap rejects before anything runs)
+    let vc = match video_codec {
+        None => VCodec::H264,
+        Some(s) => match parse_vcodec(s) {
+            Some(v) => v,
+            None => return none(Expect::MustFail("unknown video codec name")),
+        },
+    };
+    let pu32 = |s: &Option<String>| -> Result<Option<u32>, ()> {
+        match s {
+            None => Ok(None),
+            Some(x) => x.parse::<u32>().map(Some).map_err(|_| ()),
+        }
+    };
+    let (w, h) = match (pu32(width), pu32(height)) {
+        (Ok(a), Ok(b)) => (a, b),
+        _ => return none(Expect::MustFail("width/height not a u32")),
+    };
+    let f: Option<f64> = match fps {
+        None => None,
+        Some(x) => match x.parse::<f64>() {
+            Ok(v) => Some(v),
+            Err(_) => return none(Expect::MustFail("fps not a number")),
+        },
+    };
+    let (w, h, f) = match (w, h, f) {
+        (Some(w), Some(h), Some(f)) => (w, h, f),
+        _ => return none(Expect::MustFail("video parameter missing")),
+    };
+    if !(320..=4096).contains(&w) || !(240..=2160).contains(&h) {
+        return none(Expect::MustFail("dimensions outside 320x240..4096x2160"));
+    }
+    if !(f > 0.0 && f <= 120.0) {
+        return none(Expect::MustFail("fps outside (0, 120]"));
+    }
+    let mut acfg: Option<AudioCfg> = None;
+    if audio.is_some() {
+        let ac = match audio_codec {
+            None => ACodec::AacLc,
+            Some(s) => match parse_acodec(s) {
+                Some(a) => a,
+                None => return none(Expect::MustFail("unknown audio codec name")),
+            },
+        };
+        let sr = match pu32(sample_rate) {
+            Ok(x) => x,
+            Err(_) => return none(Expect::MustFail("sample rate not a u32")),
+        };
+        let ch: Option<u8> = match channels {
+            None => None,
+            Some(x) => match x.parse::<u8>() {
+                Ok(v) => Some(v),
+                Err(_) => return none(Expect::MustFail("channels not a u8")),
+            },
+        };
+        let (sr, ch) = match (sr, ch) {
+            (Some(a), Some(b)) => (a, b),
+            _ => return none(Expect::MustFail("audio parameter missing")),
+        };
+        if ac == ACodec::NoneCodec {
+            return none(Expect::Either("--audio-codec none with an audio input"));
+        }
+        if sr == 0 || sr > 192000 {
+            return none(Expect::MustFail("sample rate outside 1..=192000"));
+        }
+        if ch == 0 || ch > 8 {
+            return none(Expect::MustFail("channels outside 1..=8"));
+        }
+        acfg = Some(AudioCfg { codec: ac, rate: sr, channels: ch as u16, alias: false });
+    }
+    // inputs
+    let vdata = match video.as_ref().unwrap().readable_hex() {
+        Some(d) => d.to_vec(),
+        None => return none(Expect::MustFail("video input missing/unreadable/not hex")),
+    };
+    let adata = match audio {
+        Some(a) => match a.readable_hex() {
+            Some(d) => Some(d.to_vec()),
+            None => return none(Expect::MustFail("audio input missing/unreadable/not hex")),
+        },
+        None => None,
+    };
+    // equivalent library history
+    let meta = if title.is_some() || language.is_some() { Some(MetaCfg { title: title.clone(), ctime: None, lang: language.clone(), style: 0 }) } else { None };
+    let mut ops = vec![Op::Video { pts: F(0.0), data: Hex(vdata), key: true, cc: false }];
+    if let Some(d) = adata {
+        ops.push(Op::Audio { pts: F(0.0), data: Hex(d) });
+    }
+    ops.push(Op::Finish(FinishKind::Consume));
+    let lib = ProgCase { cfg: ProgCfg { video: Some(VideoCfg { codec: vc, width: w, height: h, fps: F(f), alias: false }), audio: acfg, fast_start: None, meta, sink: SinkKind::Sim }, ops, faults: FaultPlan::default() };
+    let ex = exec::run_prog(&lib);
+    let all_ok = ex.build.is_ok() && ex.ops.iter().all(|o| o.res.is_ok());
+    let n_audio = if lib.ops.len() == 3 { 1 } else { 0 };
+    let expect = if !all_ok {
+        Expect::MustFail("the library refuses this frame / configuration")
+    } else {
+        match output {
+            Output::Fresh | Output::Existing => Expect::MustSucceed,
+            Output::Directory => Expect::MustFail("output path is a directory"),
+            Output::MissingParent => Expect::MustFail("output directory does not exist"),
+            Output::DevFull => Expect::MustFail("output device is full (ENOSPC)"),
+        }
+    };
+    MuxPlan { expect, lib: Some(lib), n_video: 1, n_audio }
+}
+
+fn reports_completion(out: &ChildOut) -> bool {
+    let so = String::from_utf8_lossy(&out.stdout);
+    let se = String::from_utf8_lossy(&out.stderr);
+    so.contains("Muxing complete") || se.contains("Muxing complete") || so.contains("\"video_frames\"") || so.contains("Video frames:")
+}
+
+pub fn eval(c: &CliCase, st: &mut RunStats, uniq: u64) -> Vec<Violation> {
+    let mut out = Vec::new();
+    if !Path::new(BIN).exists() {
+        panic!("harness: {} not built (sim/check.sh builds it)", BIN);
+    }
+    let dir = PathBuf::from(format!("/verif/work/cli-{}-{:x}", std::process::id(), uniq));
+    let _ = std::fs::remove_dir_all(&dir);
+    std::fs::create_dir_all(&dir).expect("harness: scratch dir");
+    let r = eval_in(c, st, &dir, &mut out);
+    let _ = std::fs::remove_dir_all(&dir);
+    if let Err(e) = r {
+        panic!("harness: {}", e);
+    }
+    out
+}
+
+fn eval_in(c: &CliCase, st: &mut RunStats, dir: &Path, out: &mut Vec<Violation>) -> std::io::Result<()> {
+    let mut th = Hasher64::new();
+    let mut ah = Hasher64::new();
+    match &c.cmd {
+        CliCmd::Mux { video, audio, output, .. } => {
+            if let Some(i) = video {
+                materialise(dir, "video.hex", i)?;
+                *st.fired.entry(fs_kind(i)).or_insert(0) += 1;
+                ah.str(i.name());
+            }
+            if let Some(i) = audio {
+                materialise(dir, "audio.hex", i)?;
+                *st.fired.entry(fs_kind(i)).or_insert(0) += 1;
+                ah.str(i.name());
+            }
+            match output {
+                Output::Existing => std::fs::write(dir.join("existing.mp4"), vec![0xEEu8; 5000])?,
+                Output::Directory => std::fs::create_dir(dir.join("outdir"))?,
+                _ => {}
+            }
+            *st.fired.entry(match output {
+                Output::Fresh => "output_fresh",
+                Output::Existing => "output_existing_file",
+                Output::Directory => "output_is_directory(EISDIR)",
+                Output::MissingParent => "output_parent_missing(ENOENT)",
+                Output::DevFull => "output_dev_full(ENOSPC)",
+            })
+            .or_insert(0) += 1;
+            let plan = plan_mux(c);
+            let argv = c.argv(dir);
+            let child = run_child(dir, &argv)?;
+            th.u64(child.code.unwrap_or(-99) as u64);
+            th.str(&String::from_utf8_lossy(&child.stdout).replace(&dir.display().to_string(), "<dir>"));
+            ah.str(&format!("{:?}", plan.expect));
+            ah.u64(c.json as u64 * 2 + c.verbose as u64);
+            ah.str(c.vcodec.name());
+            ah.str(&format!("{:?}{:?}", c.acodec, output));
+            if child.timed_out {
+                out.push(v("C20", "hang", "mux", "mux command did not terminate within 20 s".to_string()));
+                return Ok(());
+            }
+            let completion = reports_completion(&child);
+            match &plan.expect {
+                Expect::MustSucceed => {
+                    st.count("mux_must_succeed", 1);
+                    if child.code != Some(0) {
+                        out.push(v("C20", "valid-mux-failed", normalise(&String::from_utf8_lossy(&child.stderr).lines().last().unwrap_or("").chars().take(80).collect::<String>()), format!("valid option combination exited with {:?}: {}", child.code, String::from_utf8_lossy(&child.stderr).chars().take(300).collect::<String>())));
+                        return Ok(());
+                    }
+                    let path = if *output == Output::Existing { dir.join("existing.mp4") } else { dir.join("out.mp4") };
+                    let got = std::fs::read(&path).unwrap_or_default();
+                    let lib = plan.lib.as_ref().unwrap();
+                    let ex = exec::run_prog(lib);
+                    if got != ex.sink.bytes {
+                        let pos = got.iter().zip(ex.sink.bytes.iter()).position(|(a, b)| a != b).unwrap_or(got.len().min(ex.sink.bytes.len()));
+                        // which setting was lost?
+                        let mut what = "file";
+                        if let CliCmd::Mux { title, language, .. } = &c.cmd {
+                            let mut l2 = lib.clone();
+                            l2.cfg.meta = None;
+                            if exec::run_prog(&l2).sink.bytes == got && (title.is_some() || language.is_some()) {
+                                what = "metadata-dropped";
+                            }
+                        }
+                        out.push(v("C20", "output-differs-from-library", what, format!("the CLI wrote {} bytes, the library produces {} bytes for the same frame and settings; first difference at byte {}", got.len(), ex.sink.bytes.len(), pos)));
+                        return Ok(());
+                    }
+                    // reported counts
+                    let so = String::from_utf8_lossy(&child.stdout).to_string();
+                    let (rv, ra) = if c.json {
+                        match serde_json::from_str::<serde_json::Value>(&so) {
+                            Ok(j) => (j["video_frames"].as_u64(), j["audio_frames"].as_u64()),
+                            Err(_) => (None, None),
+                        }
+                    } else {
+                        let grab = |tag: &str| so.lines().find_map(|l| l.trim().strip_prefix(tag).and_then(|x| x.trim().parse::<u64>().ok()));
+                        (grab("Video frames:"), grab("Audio frames:"))
+                    };
+                    if rv != Some(plan.n_video) || ra != Some(plan.n_audio) {
+                        out.push(v("C20", "reported-counts", if c.json { "json" } else { "text" }, format!("reported video/audio frames {:?}/{:?}, inputs were {}/{}; stdout: {}", rv, ra, plan.n_video, plan.n_audio, so.chars().take(200).collect::<String>())));
+                    }
+                    st.nontrivial = Some(ah.finish());
+                }
+                Expect::MustFail(why) => {
+                    st.count("mux_must_fail", 1);
+                    st.count(&format!("mux_must_fail: {}", why), 1);
+                    if child.code == Some(0) {
+                        out.push(v("C20", "invalid-mux-succeeded", *why, format!("[{}] the command exited successfully; stdout: {}", why, String::from_utf8_lossy(&child.stdout).chars().take(200).collect::<String>())));
+                    } else if completion {
+                        out.push(v("C20", "failure-reports-completion", *why, format!("[{}] exit status {:?} but the output reports completion; stdout: {}", why, child.code, String::from_utf8_lossy(&child.stdout).chars().take(200).collect::<String>())));
+                    }
+                    st.nontrivial = Some(ah.finish());
+                }
+                Expect::Either(why) => {
+                    st.count(&format!("mux_either: {}", why), 1);
+                    // still: a failing exit status must not come with a completion report
+                    if child.code != Some(0) && completion {
+                        out.push(v("C20", "failure-reports-completion", *why, format!("[{}] exit status {:?} but the output reports completion", why, child.code)));
+                    }
+                }
+            }
+        }
+        CliCmd::Validate { video, audio, report } => {
+            if let Some(i) = video {
+                materialise(dir, "video.hex", i)?;
+                *st.fired.entry(fs_kind(i)).or_insert(0) += 1;
+                ah.str(i.name());
+            }
+            if let Some(i) = audio {
+                materialise(dir, "audio.hex", i)?;
+                *st.fired.entry(fs_kind(i)).or_insert(0) += 1;
+                ah.str(i.name());
+            }
+            ah.u64(c.json as u64 * 2 + *report as u64);
+            let argv = c.argv(dir);
+            let child = run_child(dir, &argv)?;
+            th.u64(child.code.unwrap_or(-99) as u64);
+            th.str(&String::from_utf8_lossy(&child.stdout).replace(&dir.display().to_string(), "<dir>"));
+            if child.timed_out {
+                out.push(v("C20", "hang", "validate", "validate command did not terminate within 20 s".to_string()));
+                return Ok(());
+            }
+            if video.is_none() && audio.is_none() {
+                st.count("validate_either: no inputs", 1);
+                return Ok(());
+            }
+            let is_valid_input = |i: &Input| matches!(i, Input::Hex { data, .. } if !data.0.is_empty());
+            let want = video.iter().chain(audio.iter()).all(is_valid_input);
+            let so = String::from_utf8_lossy(&child.stdout).to_string();
+            let verdict: Option<bool> = if *report {
+                std::fs::read(dir.join("report.json")).ok().and_then(|b| serde_json::from_slice::<serde_json::Value>(&b).ok()).and_then(|j| j["valid"].as_bool())
+            } else if c.json {
+                serde_json::from_str::<serde_json::Value>(&so).ok().and_then(|j| j["valid"].as_bool())
+            } else if so.contains("Validation successful") {
+                Some(true)
+            } else if so.contains("Validation failed") {
+                Some(false)
+            } else {
+                None
+            };
+            let names: Vec<&str> = video.iter().chain(audio.iter()).map(|i| i.name()).collect();
+            match verdict {
+                Some(vd) if vd == want => {
+                    st.nontrivial = Some(ah.finish());
+                }
+                Some(vd) => {
+                    out.push(v("C20", "validate-verdict", format!("{}:{}", if want { "valid-called-invalid" } else { "invalid-called-valid" }, names.join("+")), format!("validate said valid={} for inputs {:?}; exit {:?}", vd, names, child.code)));
+                }
+                None => {
+                    // no verdict at all: only acceptable as a loud failure for an invalid input
+                    if want || child.code == Some(0) {
+                        out.push(v("C20", "validate-verdict", format!("none:{}", names.join("+")), format!("validate produced no verdict (exit {:?}) for inputs {:?}; stdout: {}", child.code, names, so.chars().take(200).collect::<String>())));
+                    }
+                }
+            }
+        }
+        CliCmd::Info { file } => {
+            let p = dir.join("input.mp4");
+            let mut expect_boxes: Option<Vec<(String, u64, u64)>> = None;
+            let lib_bytes = |pc: &ProgCase| -> Vec<u8> {
+                let mut pc = pc.clone();
+                pc.faults = FaultPlan::default();
+                exec::run_prog(&pc).sink.bytes
+            };
+            let mut well_formed = |b: &[u8]| -> Option<Vec<(String, u64, u64)>> {
+                let tree = crate::reader::parse_tree(b).ok()?;
+                Some(tree.iter().map(|n| (n.name(), n.size as u64, n.start as u64)).collect())
+            };
+            match file {
+                InfoFile::Library(pc) => {
+                    let b = lib_bytes(pc);
+                    if b.len() >= 8 {
+                        expect_boxes = well_formed(&b);
+                    }
+                    std::fs::write(&p, &b)?;
+                    ah.str("library");
+                }
+                InfoFile::Fragmented(fc) => {
+                    let mut fc2 = (**fc).clone();
+                    fc2.ops.insert(0, FragOp::Init);
+                    let ex = exec::run_frag(&fc2);
+                    let mut b = Vec::new();
+                    for o in &ex.ops {
+                        match o {
+                            exec::FragRes::Init(x) if b.is_empty() => b.extend_from_slice(x),
+                            exec::FragRes::Flushed(Some(x)) => b.extend_from_slice(x),
+                            _ => {}
+                        }
+                    }
+                    if b.len() >= 8 {
+                        expect_boxes = well_formed(&b);
+                    }
+                    std::fs::write(&p, &b)?;
+                    ah.str("fragmented");
+                }
+                InfoFile::Truncated(pc, cut) => {
+                    let mut b = lib_bytes(pc);
+                    let n = b.len().saturating_sub(*cut as usize + 1);
+                    b.truncate(n);
+                    std::fs::write(&p, &b)?;
+                    ah.str("truncated");
+                    *st.fired.entry("info_truncated_file").or_insert(0) += 1;
+                }
+                InfoFile::Corrupted(pc, at, val) => {
+                    let mut b = lib_bytes(pc);
+                    if !b.is_empty() {
+                        let i = (*at as usize) % b.len();
+                        b[i] = *val;
+                    }
+                    std::fs::write(&p, &b)?;
+                    ah.str("corrupted");
+                    *st.fired.entry("info_flipped_stored_byte").or_insert(0) += 1;
+                }
+                InfoFile::Random(h) => {
+                    std::fs::write(&p, &h.0)?;
+                    ah.str("random");
+                    *st.fired.entry("info_random_contents").or_insert(0) += 1;
+                }
+                InfoFile::Missing => {
+                    ah.str("missing");
+                    *st.fired.entry("input_missing(ENOENT)").or_insert(0) += 1;
+                }
+                InfoFile::Directory => {
+                    std::fs::create_dir(&p)?;
+                    ah.str("directory");
+                    *st.fired.entry("input_is_directory(EISDIR)").or_insert(0) += 1;
+                }
+            }
+            ah.u64(c.json as u64);
+            let argv = c.argv(dir);
+            let child = run_child(dir, &argv)?;
+            th.u64(child.code.unwrap_or(-99) as u64);
+            th.str(&String::from_utf8_lossy(&child.stdout).replace(&dir.display().to_string(), "<dir>"));
+            if child.timed_out {
+                out.push(v("C20", "hang", "info", "info command did not terminate within 20 s".to_string()));
+                return Ok(());
+            }
+            if let Some(want) = expect_boxes {
+                let so = String::from_utf8_lossy(&child.stdout).to_string();
+                let got: Option<Vec<(String, u64, Option<u64>)>> = if c.json {
+                    serde_json::from_str::<serde_json::Value>(&so).ok().and_then(|j| {
+                        j["boxes"].as_array().map(|a| a.iter().map(|b| (b["type"].as_str().unwrap_or("?").to_string(), b["size"].as_u64().unwrap_or(u64::MAX), b["offset"].as_u64())).collect())
+                    })
+                } else {
+                    let mut seen = false;
+                    let mut v_ = Vec::new();
+                    for l in so.lines() {
+                        if l.starts_with("Boxes found:") {
+                            seen = true;
+                            continue;
+                        }
+                        if seen {
+                            if let Some((t, rest)) = l.trim().split_once(": ") {
+                                if let Some(n) = rest.strip_suffix(" bytes").and_then(|x| x.parse::<u64>().ok()) {
+                                    v_.push((t.to_string(), n, None));
+                                }
+                            }
+                        }
+                    }
+                    if seen {
+                        Some(v_)
+                    } else {
+                        None
+                    }
+                };
+                let ok = match &got {
+                    Some(g) => g.len() == want.len() && g.iter().zip(want.iter()).all(|(a, b)| a.0 == b.0 && a.1 == b.1 && a.2.map(|o| o == b.2).unwrap_or(true)),
+                    None => false,
+                };
+                if child.code != Some(0) || !ok {
+                    out.push(v("C20", "info-box-list", if c.json { "json" } else { "text" }, format!("info (exit {:?}) listed {:?} for a well-formed file whose top-level boxes are {:?}", child.code, got, want)));
+                }
+                st.nontrivial = Some(ah.finish());
+            } else {
+                st.nontrivial = Some(ah.finish());
+            }
+        }
+    }
+    st.trace_hash = th.finish();
+    Ok(())
+}
+
+fn fs_kind(i: &Input) -> &'static str {
+    match i {
+        Input::Hex { .. } => "input_valid_hex",
+        Input::OddLength => "input_odd_length_hex",
+        Input::NonHex => "input_non_hex",
+        Input::Empty => "input_empty",
+        Input::WhitespaceOnly => "input_whitespace_only",
+        Input::NonUtf8 => "input_non_utf8(InvalidData)",
+        Input::Directory => "input_is_directory(EISDIR)",
+        Input::Missing => "input_missing(ENOENT)",
+        Input::DanglingSymlink => "input_dangling_symlink(ENOENT)",
+        Input::SymlinkLoop => "input_symlink_loop(ELOOP)",
+    }
 }
